@@ -89,21 +89,32 @@ theorem run_symbols (globals : List String) (st : St) (es : List Entry) :
 
 /-- every `GetModSym`/`SetModSym` the compiler emits for a name carries that name's index in the
 table the entry was compiled against -/
-theorem number_resolves (tbl : List String) (np ni : Nat) (ops : List Op) (name : String) :
-    (Op.get name ∈ ops → ROp.get (idxOf name tbl) ∈ (number tbl np ni ops).1) ∧
-    (Op.set name ∈ ops → ROp.set (idxOf name tbl) ∈ (number tbl np ni ops).1) := by
+theorem number_resolves (tbl : List String) (sup : Option Nat) (np ni : Nat) (ops : List Op) (name : String) :
+    (Op.get name ∈ ops → ROp.get (idxOf name tbl) ∈ (number tbl sup np ni ops).1) ∧
+    (Op.set name ∈ ops → ROp.set (idxOf name tbl) ∈ (number tbl sup np ni ops).1) := by
   induction ops generalizing np ni with
   | nil => simp
   | cons op rest ih =>
+    have tl : ∀ x, x ∈ (number tbl sup (match op with | .prop => np + 1 | _ => np)
+        (match op with | .invoke => ni + 1 | _ => ni) rest).1 → x ∈ (number tbl sup np ni (op :: rest)).1 := by
+      intro x hx
+      cases op <;> simp only [number, List.mem_cons] at hx ⊢
+      · exact Or.inr hx
+      · exact Or.inr hx
+      · exact Or.inr hx
+      · exact Or.inr hx
+      · cases sup <;> simp only [List.mem_cons]
+        · exact hx
+        · exact Or.inr hx
     constructor
     · intro h
       rcases List.mem_cons.mp h with h1 | h2
       · rw [← h1]; simp [number]
-      · cases op <;> simp only [number, List.mem_cons] <;> exact Or.inr ((ih _ _).1 h2)
+      · exact tl _ ((ih _ _).1 h2)
     · intro h
       rcases List.mem_cons.mp h with h1 | h2
       · rw [← h1]; simp [number]
-      · cases op <;> simp only [number, List.mem_cons] <;> exact Or.inr ((ih _ _).2 h2)
+      · exact tl _ ((ih _ _).2 h2)
 
 /-- **C19_symbols_persist.**  For every session prefix `es1` and every continuation `es2` (entries
 that compile, entries that fail to compile, entries that fail while running): a name that has a
@@ -118,7 +129,7 @@ theorem C19_symbols_persist (globals : List String) (st0 : St) (es1 es2 : List E
     ∀ e c, compile globals st2 e = .ok c →
       idxOf name c.table = idxOf name st1.symbols ∧
       ∀ f ∈ { name := "script", ops := e.script : FunDef } :: e.funs, Op.get name ∈ f.ops →
-        ∀ np ni, ROp.get (idxOf name st1.symbols) ∈ (number c.table np ni f.ops).1 := by
+        ∀ sup np ni, ROp.get (idxOf name st1.symbols) ∈ (number c.table sup np ni f.ops).1 := by
   intro st1 st2
   obtain ⟨more, hm⟩ := run_symbols globals st1 es2
   have h1 : idxOf name st2.symbols = idxOf name st1.symbols := by
@@ -133,9 +144,9 @@ theorem C19_symbols_persist (globals : List String) (st0 : St) (es1 es2 : List E
       rw [hm2, idxOf_append name _ _ (by show name ∈ (runSession globals st1 es2).symbols; rw [hm]; exact List.mem_append_left _ hdef)]
       exact h1
     refine ⟨h2, ?_⟩
-    intro f _ hop np ni
+    intro f _ hop sup np ni
     rw [← h2]
-    exact (number_resolves c.table np ni f.ops name).1 hop
+    exact (number_resolves c.table sup np ni f.ops name).1 hop
 
 /-- `runSession` over a concatenation -/
 theorem runSession_append (globals : List String) (st : St) (es1 es2 : List Entry) :
@@ -147,11 +158,11 @@ theorem runSession_append (globals : List String) (st : St) (es1 es2 : List Entr
 /-! ### inline-cache slots -/
 
 /-- ids handed out by one function body lie in `[np, np')` / `[ni, ni')` -/
-theorem number_range (tbl : List String) (np ni : Nat) (ops : List Op) :
-    np ≤ (number tbl np ni ops).2.1 ∧ ni ≤ (number tbl np ni ops).2.2 ∧
-    ∀ op ∈ (number tbl np ni ops).1,
-      (∀ id, op = ROp.prop id → np ≤ id ∧ id < (number tbl np ni ops).2.1) ∧
-      (∀ id, op = ROp.invoke id → ni ≤ id ∧ id < (number tbl np ni ops).2.2) := by
+theorem number_range (tbl : List String) (sup : Option Nat) (np ni : Nat) (ops : List Op) :
+    np ≤ (number tbl sup np ni ops).2.1 ∧ ni ≤ (number tbl sup np ni ops).2.2 ∧
+    ∀ op ∈ (number tbl sup np ni ops).1,
+      (∀ id, op = ROp.prop id → np ≤ id ∧ id < (number tbl sup np ni ops).2.1) ∧
+      (∀ id, op = ROp.invoke id → ni ≤ id ∧ id < (number tbl sup np ni ops).2.2) := by
   induction ops generalizing np ni with
   | nil => simp [number]
   | cons op rest ih =>
@@ -196,17 +207,29 @@ theorem number_range (tbl : List String) (np ni : Nat) (ops : List Op) :
         · intro id hid; cases hid; omega
       · obtain ⟨a, b⟩ := h3 op hop
         exact ⟨a, fun id hid => by have := b id hid; omega⟩
+    | super =>
+      obtain ⟨h1, h2, h3⟩ := ih np ni
+      cases sup with
+      | none => simpa only [number] using ⟨h1, h2, h3⟩
+      | some slot =>
+        simp only [number]
+        refine ⟨h1, h2, ?_⟩
+        intro op hop
+        simp only [List.mem_cons] at hop
+        rcases hop with rfl | hop
+        · simp
+        · exact h3 op hop
 
-theorem numberFuns_range (tbl : List String) (np ni : Nat) (fs : List FunDef) :
-    np ≤ (numberFuns tbl np ni fs).2.1 ∧ ni ≤ (numberFuns tbl np ni fs).2.2 ∧
-    ∀ f ∈ (numberFuns tbl np ni fs).1, ∀ op ∈ f.ops,
-      (∀ id, op = ROp.prop id → np ≤ id ∧ id < (numberFuns tbl np ni fs).2.1) ∧
-      (∀ id, op = ROp.invoke id → ni ≤ id ∧ id < (numberFuns tbl np ni fs).2.2) := by
+theorem numberFuns_range (tbl : List String) (sup : Option Nat) (np ni : Nat) (fs : List FunDef) :
+    np ≤ (numberFuns tbl sup np ni fs).2.1 ∧ ni ≤ (numberFuns tbl sup np ni fs).2.2 ∧
+    ∀ f ∈ (numberFuns tbl sup np ni fs).1, ∀ op ∈ f.ops,
+      (∀ id, op = ROp.prop id → np ≤ id ∧ id < (numberFuns tbl sup np ni fs).2.1) ∧
+      (∀ id, op = ROp.invoke id → ni ≤ id ∧ id < (numberFuns tbl sup np ni fs).2.2) := by
   induction fs generalizing np ni with
   | nil => simp [numberFuns]
   | cons f rest ih =>
-    obtain ⟨a1, a2, a3⟩ := number_range tbl np ni f.ops
-    obtain ⟨b1, b2, b3⟩ := ih (number tbl np ni f.ops).2.1 (number tbl np ni f.ops).2.2
+    obtain ⟨a1, a2, a3⟩ := number_range tbl sup np ni f.ops
+    obtain ⟨b1, b2, b3⟩ := ih (number tbl sup np ni f.ops).2.1 (number tbl sup np ni f.ops).2.2
     simp only [numberFuns]
     refine ⟨by omega, by omega, ?_⟩
     intro g hg op hop
@@ -221,11 +244,11 @@ theorem numberFuns_range (tbl : List String) (np ni : Nat) (fs : List FunDef) :
 script numbered consecutively from the start ids, after a prologue without cache sites -/
 theorem compileAt_ok (np0 ni0 : Nat) (globals : List String) (st : St) (e : Entry) (c : Compiled)
     (h : compileAt np0 ni0 globals st e = .ok c) :
-    ∃ tbl pro, propIds pro = [] ∧ invIds pro = [] ∧
-      c.funs = (numberFuns tbl np0 ni0 e.funs).1 ∧
-      c.script = pro ++ (number tbl (numberFuns tbl np0 ni0 e.funs).2.1 (numberFuns tbl np0 ni0 e.funs).2.2 e.script).1 ∧
-      c.propCount = (number tbl (numberFuns tbl np0 ni0 e.funs).2.1 (numberFuns tbl np0 ni0 e.funs).2.2 e.script).2.1 ∧
-      c.invCount = (number tbl (numberFuns tbl np0 ni0 e.funs).2.1 (numberFuns tbl np0 ni0 e.funs).2.2 e.script).2.2 := by
+    ∃ tbl sup pro, c.table = tbl ∧ sup = superSlot st.symbols e.decls tbl ∧ propIds pro = [] ∧ invIds pro = [] ∧
+      c.funs = (numberFuns tbl sup np0 ni0 e.funs).1 ∧
+      c.script = pro ++ (number tbl sup (numberFuns tbl sup np0 ni0 e.funs).2.1 (numberFuns tbl sup np0 ni0 e.funs).2.2 e.script).1 ∧
+      c.propCount = (number tbl sup (numberFuns tbl sup np0 ni0 e.funs).2.1 (numberFuns tbl sup np0 ni0 e.funs).2.2 e.script).2.1 ∧
+      c.invCount = (number tbl sup (numberFuns tbl sup np0 ni0 e.funs).2.1 (numberFuns tbl sup np0 ni0 e.funs).2.2 e.script).2.2 := by
   unfold compileAt at h
   split at h
   · cases h
@@ -236,7 +259,7 @@ theorem compileAt_ok (np0 ni0 : Nat) (globals : List String) (st : St) (e : Entr
       · split at h
         · cases h
         · cases h
-          refine ⟨_, _, ?_, ?_, rfl, rfl, rfl, rfl⟩
+          refine ⟨_, _, _, rfl, rfl, ?_, ?_, rfl, rfl, rfl, rfl⟩
           · simp [propIds, List.filterMap_append, List.filterMap_map, List.filterMap_flatMap]
           · simp [invIds, List.filterMap_append, List.filterMap_map, List.filterMap_flatMap]
 
@@ -271,10 +294,10 @@ theorem C19_cache_vectors_only_grow (globals : List String) (st : St) (e : Entry
   cases hc : compile globals st e with
   | error err => simp [stepWith]
   | ok c =>
-    obtain ⟨tbl, pro, _, _, _, _, hp, hi⟩ := compileAt_ok _ _ globals st e c hc
-    obtain ⟨a1, a2, _⟩ := numberFuns_range tbl st.propLen st.invLen e.funs
-    obtain ⟨b1, b2, _⟩ := number_range tbl (numberFuns tbl st.propLen st.invLen e.funs).2.1
-      (numberFuns tbl st.propLen st.invLen e.funs).2.2 e.script
+    obtain ⟨tbl, sup, pro, _, _, _, _, _, _, hp, hi⟩ := compileAt_ok _ _ globals st e c hc
+    obtain ⟨a1, a2, _⟩ := numberFuns_range tbl sup st.propLen st.invLen e.funs
+    obtain ⟨b1, b2, _⟩ := number_range tbl sup (numberFuns tbl sup st.propLen st.invLen e.funs).2.1
+      (numberFuns tbl sup st.propLen st.invLen e.funs).2.2 e.script
     simp only [stepWith, hp, hi]
     omega
 
@@ -284,10 +307,10 @@ theorem step_inRange (globals : List String) (st : St) (e : Entry) (h : InRange 
   cases hc : compile globals st e with
   | error err => exact ⟨h, rfl⟩
   | ok c =>
-    obtain ⟨tbl, pro, _, _, hf, _, hp, hi⟩ := compileAt_ok _ _ globals st e c hc
-    obtain ⟨a1, a2, a3⟩ := numberFuns_range tbl st.propLen st.invLen e.funs
-    obtain ⟨b1, b2, _⟩ := number_range tbl (numberFuns tbl st.propLen st.invLen e.funs).2.1
-      (numberFuns tbl st.propLen st.invLen e.funs).2.2 e.script
+    obtain ⟨tbl, sup, pro, _, _, _, _, hf, _, hp, hi⟩ := compileAt_ok _ _ globals st e c hc
+    obtain ⟨a1, a2, a3⟩ := numberFuns_range tbl sup st.propLen st.invLen e.funs
+    obtain ⟨b1, b2, _⟩ := number_range tbl sup (numberFuns tbl sup st.propLen st.invLen e.funs).2.1
+      (numberFuns tbl sup st.propLen st.invLen e.funs).2.2 e.script
     have hin : ∀ f ∈ st.live ++ c.funs, ∀ op ∈ f.ops,
         (∀ id, op = ROp.prop id → id < c.propCount) ∧ (∀ id, op = ROp.invoke id → id < c.invCount) := by
       intro f hfm op hop
@@ -338,10 +361,10 @@ theorem invIds_append (a b : List ROp) : invIds (a ++ b) = invIds a ++ invIds b 
 
 /-- one function body: the property ids are `np, np+1, ..` and the invoke ids `ni, ni+1, ..`, in
 emission order, and the counters end right after them -/
-theorem number_ids (tbl : List String) (np ni : Nat) (ops : List Op) :
-    (number tbl np ni ops).2.1 = np + nProp ops ∧ (number tbl np ni ops).2.2 = ni + nInv ops ∧
-    propIds (number tbl np ni ops).1 = List.range' np (nProp ops) ∧
-    invIds (number tbl np ni ops).1 = List.range' ni (nInv ops) := by
+theorem number_ids (tbl : List String) (sup : Option Nat) (np ni : Nat) (ops : List Op) :
+    (number tbl sup np ni ops).2.1 = np + nProp ops ∧ (number tbl sup np ni ops).2.2 = ni + nInv ops ∧
+    propIds (number tbl sup np ni ops).1 = List.range' np (nProp ops) ∧
+    invIds (number tbl sup np ni ops).1 = List.range' ni (nInv ops) := by
   induction ops generalizing np ni with
   | nil => simp [number, nProp, nInv, propIds, invIds]
   | cons op rest ih =>
@@ -364,17 +387,21 @@ theorem number_ids (tbl : List String) (np ni : Nat) (ops : List Op) :
       simp only [propIds, invIds] at h3 h4
       simp [number, nProp, nInv, propIds, invIds, h1, h2, h3, h4, List.range'_succ]
       omega
+    | super =>
+      obtain ⟨h1, h2, h3, h4⟩ := ih np ni
+      simp only [propIds, invIds] at h3 h4
+      cases sup <;> simp [number, nProp, nInv, propIds, invIds, h1, h2, h3, h4]
 
 /-- the functions of one entry, in the order they are finished -/
-theorem numberFuns_ids (tbl : List String) (np ni : Nat) (fs : List FunDef) :
-    ∃ kp ki, (numberFuns tbl np ni fs).2.1 = np + kp ∧ (numberFuns tbl np ni fs).2.2 = ni + ki ∧
-      propIds ((numberFuns tbl np ni fs).1.flatMap (·.ops)) = List.range' np kp ∧
-      invIds ((numberFuns tbl np ni fs).1.flatMap (·.ops)) = List.range' ni ki := by
+theorem numberFuns_ids (tbl : List String) (sup : Option Nat) (np ni : Nat) (fs : List FunDef) :
+    ∃ kp ki, (numberFuns tbl sup np ni fs).2.1 = np + kp ∧ (numberFuns tbl sup np ni fs).2.2 = ni + ki ∧
+      propIds ((numberFuns tbl sup np ni fs).1.flatMap (·.ops)) = List.range' np kp ∧
+      invIds ((numberFuns tbl sup np ni fs).1.flatMap (·.ops)) = List.range' ni ki := by
   induction fs generalizing np ni with
   | nil => exact ⟨0, 0, by simp [numberFuns, propIds, invIds]⟩
   | cons f rest ih =>
-    obtain ⟨a1, a2, a3, a4⟩ := number_ids tbl np ni f.ops
-    obtain ⟨kp, ki, b1, b2, b3, b4⟩ := ih (number tbl np ni f.ops).2.1 (number tbl np ni f.ops).2.2
+    obtain ⟨a1, a2, a3, a4⟩ := number_ids tbl sup np ni f.ops
+    obtain ⟨kp, ki, b1, b2, b3, b4⟩ := ih (number tbl sup np ni f.ops).2.1 (number tbl sup np ni f.ops).2.2
     refine ⟨nProp f.ops + kp, nInv f.ops + ki, ?_, ?_, ?_, ?_⟩
     · simp only [numberFuns]; omega
     · simp only [numberFuns]; omega
@@ -391,10 +418,10 @@ theorem compile_ids (globals : List String) (st : St) (e : Entry) (c : Compiled)
     ∃ kp ki, c.propCount = st.propLen + kp ∧ c.invCount = st.invLen + ki ∧
       propIds (c.funs.flatMap (·.ops) ++ c.script) = List.range' st.propLen kp ∧
       invIds (c.funs.flatMap (·.ops) ++ c.script) = List.range' st.invLen ki := by
-  obtain ⟨tbl, pro, hpp, hpi, hf, hs, hp, hi⟩ := compileAt_ok _ _ globals st e c h
-  obtain ⟨kp, ki, a1, a2, a3, a4⟩ := numberFuns_ids tbl st.propLen st.invLen e.funs
-  obtain ⟨b1, b2, b3, b4⟩ := number_ids tbl (numberFuns tbl st.propLen st.invLen e.funs).2.1
-    (numberFuns tbl st.propLen st.invLen e.funs).2.2 e.script
+  obtain ⟨tbl, sup, pro, _, _, hpp, hpi, hf, hs, hp, hi⟩ := compileAt_ok _ _ globals st e c h
+  obtain ⟨kp, ki, a1, a2, a3, a4⟩ := numberFuns_ids tbl sup st.propLen st.invLen e.funs
+  obtain ⟨b1, b2, b3, b4⟩ := number_ids tbl sup (numberFuns tbl sup st.propLen st.invLen e.funs).2.1
+    (numberFuns tbl sup st.propLen st.invLen e.funs).2.2 e.script
   refine ⟨kp + nProp e.script, ki + nInv e.script, by omega, by omega, ?_, ?_⟩
   · rw [hf, hs, propIds_append, propIds_append, hpp, a3, b3, a1, List.nil_append]
     exact List.range'_append_1
@@ -489,6 +516,101 @@ theorem live_subset_sessionOps (globals : List String) (es : List Entry) : ∀ s
       simp only [sessionOps]
       exact List.mem_append_right _ (h op hop)
 
+/-! ### the implicit superclass of a class declared without a parent (`global_get`) -/
+
+theorem uniq_mem (x : String) (l seen : List String) (hx : x ∈ l) (hs : x ∉ seen) : x ∈ uniq seen l := by
+  induction l generalizing seen with
+  | nil => simp at hx
+  | cons y rest ih =>
+    simp only [uniq]
+    split
+    · rename_i hy
+      rcases List.mem_cons.mp hx with h | h
+      · exact absurd (h ▸ hy) hs
+      · exact ih seen h hs
+    · rename_i hy
+      rcases List.mem_cons.mp hx with h | h
+      · exact h ▸ List.mem_cons_self
+      · by_cases hxy : x = y
+        · exact hxy ▸ List.mem_cons_self
+        · exact List.mem_cons_of_mem _ (ih (y :: seen) h (by simp [hxy, hs]))
+
+/-- the table of a successful compile, spelled out -/
+theorem compile_table_eq (globals : List String) (st : St) (e : Entry) (c : Compiled) (h : compile globals st e = .ok c) :
+    c.table = st.symbols ++ e.decls ++
+      uniq (st.symbols ++ e.decls) (e.refs.filter (fun r => !(r ∈ st.symbols || r ∈ e.decls))) := by
+  unfold compile compileAt at h
+  split at h
+  · cases h
+  · split at h
+    · cases h
+    · split at h
+      · cases h
+      · split at h
+        · cases h
+        · cases h; rfl
+
+/-- **C19_implicit_super_first_mention.**  In the entry that brings `Object` into the module — the
+module does not have the name yet and the entry does not declare it — the implicit superclass of
+the entry's class declarations is read with `GetModSym` from a slot that (i) holds `Object` in the
+table the entry is compiled against and (ii) is one of the slots this entry itself appends after
+the module's symbols and its own declarations: the module's own copy of the global. -/
+theorem C19_implicit_super_first_mention (globals : List String) (st : St) (e : Entry) (c : Compiled)
+    (h : compile globals st e = .ok c) (h1 : "Object" ∉ st.symbols) (h2 : "Object" ∉ e.decls) (h3 : "Object" ∈ e.refs) :
+    ∃ slot, superSlot st.symbols e.decls c.table = some slot ∧ c.table[slot]? = some "Object" ∧
+      st.symbols.length + e.decls.length ≤ slot ∧ slot < c.table.length := by
+  have ht := compile_table_eq globals st e c h
+  have hmem : "Object" ∈ uniq (st.symbols ++ e.decls) (e.refs.filter (fun r => !(r ∈ st.symbols || r ∈ e.decls))) := by
+    apply uniq_mem
+    · exact List.mem_filter.mpr ⟨h3, by simp [h1, h2]⟩
+    · simp [h1, h2]
+  have hin : "Object" ∈ c.table := by rw [ht]; exact List.mem_append_right _ hmem
+  refine ⟨idxOf "Object" c.table, by simp [superSlot, h1, h2], idxOf_get _ _ hin, ?_, idxOf_lt _ _ hin⟩
+  have hnot : "Object" ∉ st.symbols ++ e.decls := by simp [h1, h2]
+  have key : ∀ (l r : List String), "Object" ∉ l → l.length ≤ idxOf "Object" (l ++ r) := by
+    intro l r hl
+    induction l with
+    | nil => simp
+    | cons x rest ih =>
+      have hx : x ≠ "Object" := fun hx => hl (hx ▸ List.mem_cons_self)
+      have hr : "Object" ∉ rest := fun hr => hl (List.mem_cons_of_mem _ hr)
+      simp only [List.cons_append, idxOf, hx, if_false, List.length_cons]
+      have := ih hr
+      omega
+  rw [ht]
+  have := key (st.symbols ++ e.decls)
+    (uniq (st.symbols ++ e.decls) (e.refs.filter (fun r => !(r ∈ st.symbols || r ∈ e.decls)))) hnot
+  simpa [List.length_append] using this
+
+/-- when the implicit superclass is loaded from the global module (`LoadGlobal`), a class
+declaration's superclass leaves no module-symbol instruction behind -/
+theorem number_super_none (tbl : List String) (np ni : Nat) (ops : List Op) :
+    number tbl none np ni ops = number tbl none np ni (ops.filter (· ≠ Op.super)) := by
+  induction ops generalizing np ni with
+  | nil => rfl
+  | cons op rest ih =>
+    cases op <;> simp [number, ih]
+
+/-- **C19_implicit_super_later_entries.**  Once the module has a symbol called `Object` — because
+an earlier entry's parent-less class (or any other use) brought the global in, or because the
+session declared its own `Object` — it has it for the rest of the session (entries that fail
+included), and every later entry that compiles loads the implicit superclass of its classes from
+the global module: no slot is read (`superSlot = none`, and by `number_super_none` nothing is
+emitted).  The same holds in the very entry that declares its own `Object`. -/
+theorem C19_implicit_super_later_entries (globals : List String) (st0 : St) (es1 es2 : List Entry)
+    (hobj : "Object" ∈ (runSession globals st0 es1).symbols) :
+    let st2 := runSession globals (runSession globals st0 es1) es2
+    "Object" ∈ st2.symbols ∧ ∀ (e : Entry) (tbl : List String), superSlot st2.symbols e.decls tbl = none := by
+  intro st2
+  obtain ⟨more, hm⟩ := run_symbols globals (runSession globals st0 es1) es2
+  have hin : "Object" ∈ st2.symbols := by
+    show "Object" ∈ (runSession globals (runSession globals st0 es1) es2).symbols
+    rw [hm]; exact List.mem_append_left _ hobj
+  exact ⟨hin, fun e tbl => by simp [superSlot, hin]⟩
+
+theorem superSlot_own_object (symbols decls tbl : List String) (h : "Object" ∈ decls) :
+    superSlot symbols decls tbl = none := by simp [superSlot, h]
+
 /-! ### the repaired finding D13 as a regression fact, and non-vacuity -/
 
 /-- `corpus/C19/04_d13_cache_replaced.json` in the model's vocabulary: a class, a function with an
@@ -548,6 +670,36 @@ example :
     propIds (sessionOps [] St.empty es) = [0, 1] ∧ invIds (sessionOps [] St.empty es) = [0, 1, 2] ∧
     (runSession [] St.empty es).live.map (fun f => (f.name, f.ops)) =
       [("f", [.prop 0, .invoke 0]), ("h", [.invoke 1, .prop 1])] := by
+  decide
+
+/-- the compile logs of three sessions on the implementation (`vh_repl`), reproduced by the model.
+(1) `class K1 {..}` / `class K2 {..} print(Object);` / `fn mk3() { class L {..} return L; }`: the
+first entry reads `Object` from its new slot 1, the second declares `K2`, `print` and reads only
+`K2` for the inherit, then `print` and — explicitly — `Object`; a class inside a later function
+reads nothing.  (2) `class K1 {..} let Object = 5;`: the entry declares its own `Object`, no global
+is added.  (3) a function shadowing `Object` with a parameter emits no op at all; a function
+without, in the first entry that mentions `Object`, reads slot 3 from inside its body. -/
+example :
+    let k1 : Entry := { syntaxOk := true, decls := ["K1"], refs := ["Object"], funs := [{ name := "m", ops := [] }],
+                        script := [.set "K1", .super, .get "K1"], calls := [] }
+    let k2 : Entry := { syntaxOk := true, decls := ["K2"], refs := ["Object", "print", "Object"], funs := [{ name := "m", ops := [] }],
+                        script := [.set "K2", .super, .get "K2", .get "print", .get "Object"], calls := [] }
+    let mk3 : Entry := { syntaxOk := true, decls := ["mk3"], refs := ["Object"],
+                         funs := [{ name := "v", ops := [] }, { name := "mk3", ops := [.super] }], script := [.set "mk3"], calls := [] }
+    let own : Entry := { syntaxOk := true, decls := ["K1", "Object"], refs := ["Object"], funs := [{ name := "m", ops := [] }],
+                         script := [.set "K1", .super, .get "K1", .set "Object"], calls := [] }
+    let first : Entry := { syntaxOk := true, decls := ["mk4", "mk3", "Z"], refs := ["Object", "Object"],
+                           funs := [{ name := "v", ops := [] }, { name := "mk4", ops := [] }, { name := "v", ops := [] },
+                                    { name := "mk3", ops := [.super] }],
+                           script := [.set "mk4", .set "mk3", .set "Z", .super, .get "Z"], calls := [] }
+    let log (st : St) (e : Entry) := (compile ["print", "Object"] st e).toOption.map fun c => (c.funs.map (·.ops), c.script)
+    log St.empty k1 = some ([[]], [.decl 0, .decl 1, .set 1, .set 0, .get 1, .get 0]) ∧
+    log (runSession ["print", "Object"] St.empty [k1]) k2 =
+      some ([[]], [.decl 2, .decl 3, .set 3, .set 2, .get 2, .get 3, .get 1]) ∧
+    log (runSession ["print", "Object"] St.empty [k1, k2]) mk3 = some ([[], []], [.decl 4, .set 4]) ∧
+    log St.empty own = some ([[]], [.decl 0, .decl 1, .set 0, .get 0, .set 1]) ∧
+    log St.empty first =
+      some ([[], [], [], [.get 3]], [.decl 0, .decl 1, .decl 2, .decl 3, .set 3, .set 0, .set 1, .set 2, .get 3, .get 2]) := by
   decide
 
 /-- a session with a duplicate declaration, an undeclared name and a syntax error: the three failing
